@@ -145,8 +145,13 @@ func validateBasicSyntax(exprStr string) error {
 
 	// Check for consecutive operators
 	operators := []string{"+", "-", "*", "/", "%", "^", "=", "!=", "<>", ">", "<", ">=", "<="}
+	// A '-' after another operator, or at the start, is a unary minus (the SELECT
+	// lexer re-assembles "-a" as "- a" and "a - -b" as "a - - b"), not a syntax error.
 	for _, op1 := range operators {
 		for _, op2 := range operators {
+			if op2 == "-" {
+				continue
+			}
 			if strings.Contains(trimmed, " "+op1+" "+op2+" ") {
 				return fmt.Errorf("consecutive operators")
 			}
@@ -155,7 +160,7 @@ func validateBasicSyntax(exprStr string) error {
 
 	// Check if expression starts or ends with operator
 	for _, op := range operators {
-		if strings.HasPrefix(trimmed, op+" ") {
+		if op != "-" && strings.HasPrefix(trimmed, op+" ") {
 			return fmt.Errorf("expression cannot start with operator")
 		}
 		if strings.HasSuffix(trimmed, " "+op) {
